@@ -4,6 +4,7 @@
 #include "igzip_hdr_read.h"
 STUB_GHOST_DEFS
 size_t g_i;
+HR_GHOST_DEFS
 #include "splice_defaults.h"
 /* harness-level model of memcpy for copies into state->tmp_in_buffer, see igzip_hdr_read.h */
 HR_MEMCPY_MODEL
